@@ -175,6 +175,17 @@ def machine(tier, col):  # pylint: disable=unused-argument
             self.do(["api", "addExcludeRegion", data])
 
         @rule(pick=st.integers(0, 9), how=st.sampled_from(HOWS), delta=small, shift=st.sampled_from([0.0, 0.5, -2.0, 1e-9]))
+        def add_with_existing_id(self, pick, how, delta, shift):
+            """An add request that re-uses the id of an existing region (must not replace it by something smaller)."""
+            cur = self.stepper.h.regions()
+            if not cur:
+                return
+            old = cur[pick % len(cur)]
+            new = derive(old, how, delta, shift)
+            new["id"] = old["id"]
+            self.do(["api", "addExcludeRegion", new])
+
+        @rule(pick=st.integers(0, 9), how=st.sampled_from(HOWS), delta=small, shift=st.sampled_from([0.0, 0.5, -2.0, 1e-9]))
         def update(self, pick, how, delta, shift):
             cur = self.stepper.h.regions()
             if not cur:
